@@ -56,7 +56,10 @@ pub use shared_layer::{SharedCacheConfigBuilder, SharedCacheLayer};
 
 use futures::future::BoxFuture;
 use std::hash::Hash;
+#[cfg(not(feature = "verif-hooks"))]
 use std::sync::{Arc, Mutex};
+#[cfg(feature = "verif-hooks")]
+use {std::sync::Arc, tower_resilience_core::verif::sync::Mutex};
 use std::task::{Context, Poll};
 use std::time::Instant;
 use store::CacheStore;
